@@ -143,5 +143,194 @@ theorem simconfig_noise_roundtrip_live (vals : String → Value) (b : Bool)
       nm'.get? p = nm.get? p :=
   simconfig_noise_roundtrip _ noise_tables_ok vals b hb
 
+/-- **NoiseModel → JSON → NoiseModel** returns the instance (`noise_types` and every stored
+parameter), provided every parameter that no active noise type uses is unset.
+Without that proviso the statement is false on the code as it is — see
+`noise_irrelevant_param_counterexample` (finding "irrelevant-param"). -/
+theorem noise_roundtrip (N : NoiseTables) (hN : NoiseTablesOk N) (vals : String → Value)
+    (b : Bool) (hb : vals "with_leakage" = .bool b)
+    (rs os : List Value) (hr : vals "eff_noise_rates" = .list rs) (ho : vals "eff_noise_opers" = .list os)
+    (hlen : rs.length = os.length)
+    (hclean : ∀ p ∈ N.params, special p = false →
+      noiseRelevant N (noiseInit N (argsOf N vals)) p = false →
+      normVal N p (vals p) = normVal N p (N.dfl p)) :
+    noiseDecode N (noiseEncode (noiseInit N (argsOf N vals))) = noiseInit N (argsOf N vals) :=
+  noise_json_roundtrip vals (noiseFacts hN) hb hr ho hlen hclean
+
+/-- … hence such a noise model is a good `default_noise_model` for the device theorems. -/
+theorem noise_sub_good (N : NoiseTables) (hN : NoiseTablesOk N) (vals : String → Value)
+    (b : Bool) (hb : vals "with_leakage" = .bool b)
+    (rs os : List Value) (hr : vals "eff_noise_rates" = .list rs) (ho : vals "eff_noise_opers" = .list os)
+    (hlen : rs.length = os.length)
+    (hclean : ∀ p ∈ N.params, special p = false →
+      noiseRelevant N (noiseInit N (argsOf N vals)) p = false →
+      normVal N p (vals p) = normVal N p (N.dfl p)) :
+    (noiseSub N).Good (.obj (noiseInit N (argsOf N vals))) := by
+  unfold Sub.Good noiseSub
+  simp only
+  rw [noise_roundtrip N hN vals b hb rs os hr ho hlen hclean]
+
+/-! ### Non-vacuity: concrete objects meet the hypotheses -/
+
+def exEom : Record :=
+  [("limiting_beam", .str "RED"), ("max_limiting_amp", .num 40), ("intermediate_detuning", .num 700),
+   ("controlled_beams", .list [.str "BLUE", .str "RED"]), ("mod_bandwidth", .num 24),
+   ("custom_buffer_time", .null), ("multiple_beam_control", .bool true),
+   ("blue_shift_coeff", .num (mkRat 3 2)), ("red_shift_coeff", .num 1)]
+
+/-- `Rydberg.Global(20, 10, clock_period=4, min_duration=16, mod_bandwidth=8, eom_config=…)`. -/
+def exRydberg : Record :=
+  [("id", .str "ryd"), ("addressing", .str "Global"), ("max_abs_detuning", .num 20), ("max_amp", .num 10),
+   ("min_retarget_interval", .null), ("fixed_retarget_t", .null), ("max_targets", .null),
+   ("clock_period", .num 4), ("min_duration", .num 16), ("max_duration", .num 100000000),
+   ("min_avg_amp", .num 0), ("mod_bandwidth", .num 8), ("custom_phase_jump_time", .null),
+   ("eom_config", .obj exEom), ("propagation_dir", .null)]
+
+def exDmm : Record :=
+  [("id", .str "dmm_0"), ("addressing", .str "Global"), ("max_abs_detuning", .null), ("max_amp", .num 0),
+   ("min_retarget_interval", .null), ("fixed_retarget_t", .null), ("max_targets", .null),
+   ("clock_period", .num 1), ("min_duration", .num 1), ("max_duration", .num 100000000),
+   ("min_avg_amp", .num 0), ("mod_bandwidth", .null), ("custom_phase_jump_time", .num 40),
+   ("eom_config", .null), ("propagation_dir", .null), ("bottom_detuning", .num (-20)),
+   ("total_bottom_detuning", .null)]
+
+example : channelRecOkB Generated.channels Generated.rydberg exRydberg = true := by decide +kernel
+
+/-- The example channel is in the theorem's domain and round-trips; its optional fields at their
+default (`min_avg_amp`, `custom_phase_jump_time`, `propagation_dir`, the EOM's
+`custom_buffer_time`, `multiple_beam_control`, `red_shift_coeff`) are not written. -/
+example : (channelSub Generated.channels).Good (.obj ((classKey, .str "Rydberg") :: exRydberg)) :=
+  channel_roundtrip (T := Generated.rydberg) (by simp [Generated.channels])
+    (channelRecOk_of_B (by decide +kernel))
+
+example : (encode Generated.rydberg (chanSub Generated.channels) exRydberg).keys =
+    ["basis", "id", "addressing", "max_abs_detuning", "max_amp", "min_retarget_interval",
+     "fixed_retarget_t", "max_targets", "clock_period", "min_duration", "max_duration",
+     "mod_bandwidth", "eom_config"] := by decide +kernel
+
+example : (channelSub Generated.channels).Good (.obj ((classKey, .str "DMM") :: exDmm)) :=
+  channel_roundtrip (T := Generated.dmm) (by simp [Generated.channels])
+    (channelRecOk_of_B (by decide +kernel))
+
+/-- A virtual device with one Rydberg channel (with EOM) and one DMM. -/
+def exVirtualDevice : Record :=
+  [("name", .str "ex"), ("dimensions", .num 2), ("rydberg_level", .num 60), ("min_atom_distance", .num 0),
+   ("max_atom_num", .null), ("max_radial_distance", .null), ("interaction_coeff_xy", .null),
+   ("supports_slm_mask", .bool true), ("max_layout_filling", .num (mkRat 1 2)),
+   ("optimal_layout_filling", .null), ("min_layout_traps", .num 1), ("max_layout_traps", .null),
+   ("max_sequence_duration", .num 4000), ("max_runs", .null), ("requires_layout", .bool false),
+   ("reusable_channels", .bool true),
+   ("channels", .list [.obj ((classKey, .str "Rydberg") :: exRydberg)]),
+   ("dmm_objects", .list [.obj ((classKey, .str "DMM") :: exDmm)]),
+   ("default_noise_model", .null), ("short_description", .str "")]
+
+example : (deviceSub Generated.devices (noiseSub Generated.noise)).Good
+    (.obj ((classKey, .str "VirtualDevice") :: exVirtualDevice)) :=
+  device_roundtrip_virtual (noiseSub Generated.noise) (deviceRecOk_of_B (by decide +kernel))
+
+/-- A physical device with a calibrated layout. -/
+def exDevice : Record :=
+  [("name", .str "phys"), ("dimensions", .num 2), ("rydberg_level", .num 70), ("min_atom_distance", .num 4),
+   ("max_atom_num", .num 25), ("max_radial_distance", .num 35), ("interaction_coeff_xy", .null),
+   ("supports_slm_mask", .bool false), ("max_layout_filling", .num (mkRat 1 2)),
+   ("optimal_layout_filling", .null), ("min_layout_traps", .num 1), ("max_layout_traps", .null),
+   ("max_sequence_duration", .null), ("max_runs", .num 500), ("requires_layout", .bool true),
+   ("reusable_channels", .bool false),
+   ("channels", .list [.obj ((classKey, .str "Rydberg") :: exRydberg)]),
+   ("dmm_objects", .list []), ("default_noise_model", .null), ("short_description", .str ""),
+   ("pre_calibrated_layouts", .list [.obj [("coordinates", .list [.list [.num 0, .num 0], .list [.num 5, .num 0]]),
+                                          ("slug", .str "pair")]]),
+   ("accepts_new_layouts", .bool true)]
+
+example : (deviceSub Generated.devices (noiseSub Generated.noise)).Good
+    (.obj ((classKey, .str "Device") :: exDevice)) :=
+  device_roundtrip_physical (noiseSub Generated.noise) (deviceRecOk_of_B (by decide +kernel))
+
+/-- `NoiseModel(temperature=50., runs=15, samples_per_run=5, p_false_pos=0.01)`. -/
+def exNoiseVals (p : String) : Value :=
+  if p = "temperature" then .num 50 else if p = "runs" then .num 15 else if p = "samples_per_run" then .num 5
+  else if p = "p_false_pos" then .num (mkRat 1 100) else Generated.noise.dfl p
+
+example : activeTypes Generated.noise (argsOf Generated.noise exNoiseVals) = ["SPAM", "doppler"] := by
+  decide +kernel
+
+example : noiseDecode Generated.noise (noiseEncode (noiseInit Generated.noise (argsOf Generated.noise exNoiseVals)))
+    = noiseInit Generated.noise (argsOf Generated.noise exNoiseVals) := by decide +kernel
+
+/-! ### The provisos are necessary: counterexamples on frozen copies of the tables
+(frozen so that a later fix of the code does not turn a documented finding into a build failure) -/
+
+/-- The same-default rule of `TablesOk` is necessary.  A one-field class whose encoder drops the
+field when it is *empty* while the decoder falls back to a *non-empty* default — the shape of
+`VirtualDevice.dmm_objects` — does not round-trip. -/
+def dmmShape : Tables where
+  cls := "V"
+  fields := [{ name := "dmm_objects", init := true, dflt := some (.list [.str "DMM()"]) }]
+  optional := ["dmm_objects"]
+  encSkip := []
+  encOverride := [("dmm_objects", .list [])]
+  consts := []
+  decDefault := [("dmm_objects", .list [.str "DMM()"])]
+  decRequired := []
+  schemaProps := ["dmm_objects"]
+  schemaRequired := []
+
+theorem empty_dmm_counterexample :
+    ¬ TablesOk dmmShape [] ∧ TablesOk dmmShape ["dmm_objects"] ∧
+    decode dmmShape (fun _ => Sub.id) (encode dmmShape (fun _ => Sub.id) [("dmm_objects", .list [])])
+      = some [("dmm_objects", .list [.str "DMM()"])] := by decide +kernel
+
+/-- The tables of the noise model as of this writing. -/
+def frozenNoise : NoiseTables where
+  typeParams := [("leakage", ["with_leakage"]), ("doppler", ["temperature"]),
+    ("amplitude", ["laser_waist", "amp_sigma"]), ("SPAM", ["p_false_pos", "p_false_neg", "state_prep_error"]),
+    ("dephasing", ["dephasing_rate", "hyperfine_dephasing_rate"]), ("relaxation", ["relaxation_rate"]),
+    ("depolarizing", ["depolarizing_rate"]), ("eff_noise", ["eff_noise_rates", "eff_noise_opers"])]
+  paramType := [("with_leakage", "leakage"), ("temperature", "doppler"), ("laser_waist", "amplitude"),
+    ("amp_sigma", "amplitude"), ("p_false_pos", "SPAM"), ("p_false_neg", "SPAM"), ("state_prep_error", "SPAM"),
+    ("dephasing_rate", "dephasing"), ("hyperfine_dephasing_rate", "dephasing"),
+    ("relaxation_rate", "relaxation"), ("depolarizing_rate", "depolarizing"),
+    ("eff_noise_rates", "eff_noise"), ("eff_noise_opers", "eff_noise")]
+  zeroed := ["amp_sigma", "dephasing_rate", "depolarizing_rate", "hyperfine_dephasing_rate", "p_false_neg",
+    "p_false_pos", "relaxation_rate", "state_prep_error", "temperature"]
+  params := ["runs", "samples_per_run", "state_prep_error", "p_false_pos", "p_false_neg", "temperature",
+    "laser_waist", "amp_sigma", "relaxation_rate", "dephasing_rate", "hyperfine_dephasing_rate",
+    "depolarizing_rate", "eff_noise_rates", "eff_noise_opers", "with_leakage"]
+  defaults := [("eff_noise_rates", .list []), ("eff_noise_opers", .list []), ("with_leakage", .bool false)]
+  simRename := [("noise_types", "noise"), ("state_prep_error", "eta"), ("p_false_pos", "epsilon"),
+    ("p_false_neg", "epsilon_prime")]
+
+/-- `NoiseModel(runs=10)`: no noise type is active, `runs` is stored all the same. -/
+def runsOnly (p : String) : Value := if p = "runs" then .num 10 else frozenNoise.dfl p
+
+/-- The proviso of `noise_roundtrip` is necessary: `NoiseModel(runs=10)` is accepted (with a
+warning) and keeps `runs = 10`, but the decoder only passes the relevant parameters, so the
+decoded instance has `runs = None`. -/
+theorem noise_irrelevant_param_counterexample :
+    NoiseTablesOk frozenNoise ∧
+    (noiseInit frozenNoise (argsOf frozenNoise runsOnly)).get? "runs" = some (.num 10) ∧
+    (noiseDecode frozenNoise (noiseEncode (noiseInit frozenNoise (argsOf frozenNoise runsOnly)))).get? "runs"
+      = some .null := by decide +kernel
+
+/-- `WellTyped.skipped` is necessary: a field the encoder never writes (the shape of
+`Device.short_description`) comes back as the decoder's fallback. -/
+def skippedShape : Tables where
+  cls := "D"
+  fields := [{ name := "short_description", init := true, dflt := some (.str "") }]
+  optional := []
+  encSkip := ["short_description"]
+  encOverride := []
+  consts := []
+  decDefault := [("short_description", .str "")]
+  decRequired := []
+  schemaProps := []
+  schemaRequired := []
+
+theorem skipped_field_counterexample :
+    TablesOk skippedShape ∧
+    decode skippedShape (fun _ => Sub.id)
+      (encode skippedShape (fun _ => Sub.id) [("short_description", .str "A device.")])
+      = some [("short_description", .str "")] := by decide +kernel
+
 end C17
 end Pulser
